@@ -27,6 +27,7 @@ for d in seeded/$G/; do
     runs=$(echo "$out" | grep -o "runs=[0-9]*" | head -1)
     case $rc in 1) v=caught;; 0) v=MISSED;; *) v="exit$rc";; esac
     if [ $rc = 0 ] && grep -q neutralised_by $d/meta.json; then v="no longer a breakage (neutralised by a fix, see meta.json)"; fi
+    if [ $rc = 0 ] && grep -q not_detected $d/meta.json; then v="NOT DETECTED (reason in meta.json)"; fi
   fi
   echo "| $id | $C | $v | ${fp:-} | ${runs:-} |" >> seeded/RESULTS.md.new
   echo "$id $C $v $fp $runs"
